@@ -43,10 +43,19 @@ type pipeIn struct {
 	Ops []Op    `json:"ops"`
 }
 
+type pipeObs struct {
+	Table    interface{}            `json:"table"`
+	Registry Snapshot               `json:"registry"`
+	Oracle   map[string]interface{} `json:"oracle"`
+}
+
 type pipeOut struct {
 	Table    interface{}            `json:"table"`
 	Registry Snapshot               `json:"registry"`
 	Oracle   map[string]interface{} `json:"oracle"`
+	Obs      []pipeObs              `json:"obs"`    // table + registry state at every sync point
+	Faults   int                    `json:"faults"` // injected 500 answers
+	Jumps    int                    `json:"jumps"`  // backwards index jumps
 }
 
 var (
@@ -217,31 +226,70 @@ func runPipeline(raw json.RawMessage) (interface{}, error) {
 		return nil, fmt.Errorf("fabio child did not start: %q %v", l, err)
 	}
 	const patience = 10 * time.Second
+	dump := func() (interface{}, error) {
+		if _, err := stdin.Write([]byte("dump\n")); err != nil {
+			return nil, err
+		}
+		line, err := rd.ReadBytes('\n')
+		if err != nil {
+			return nil, fmt.Errorf("dump: %v", err)
+		}
+		var table interface{}
+		if err := json.Unmarshal(line, &table); err != nil {
+			return nil, err
+		}
+		return table, nil
+	}
+	// observations: at every sync point the watchers have seen the current registry state and the table loop
+	// has processed what they sent; the table installed then is shipped with that state (soundness is demanded
+	// of every one of them, faults or not)
+	obs := []pipeObs{}
 	for _, o := range in.Ops {
 		if o.Op == "sync" {
 			if !reg.quiesce(patience) {
 				return nil, errors.New("watchers did not pick up the state (sync)")
 			}
+			if len(obs) < 8 {
+				table, err := dump()
+				if err != nil {
+					return nil, err
+				}
+				snap := reg.snapshot()
+				obs = append(obs, pipeObs{Table: table, Registry: snap, Oracle: oracleFor(snap, in.Cfg.Prefix)})
+			}
 			continue
 		}
 		reg.apply(o)
 	}
+	// the faults stop; the final state is delivered; if the configuration delivered last was built while a
+	// catalog lookup failed, one more health change (index only) makes the monitor look again
+	reg.stopFaults()
 	if !reg.quiesce(patience) {
 		return nil, errors.New("watchers did not pick up the final state")
 	}
-	if _, err := stdin.Write([]byte("dump\n")); err != nil {
-		return nil, err
+	if !reg.lastRoundClean() {
+		table, err := dump()
+		if err != nil {
+			return nil, err
+		}
+		snap := reg.snapshot()
+		if len(obs) < 9 {
+			obs = append(obs, pipeObs{Table: table, Registry: snap, Oracle: oracleFor(snap, in.Cfg.Prefix)})
+		}
+		reg.touchHealth()
+		if !reg.quiesce(patience) {
+			return nil, errors.New("watchers did not pick up the final state after the faults stopped")
+		}
 	}
-	line, err := rd.ReadBytes('\n')
+	table, err := dump()
 	if err != nil {
-		return nil, fmt.Errorf("dump: %v", err)
-	}
-	var table interface{}
-	if err := json.Unmarshal(line, &table); err != nil {
 		return nil, err
 	}
 	snap := reg.snapshot()
-	return pipeOut{Table: table, Registry: snap, Oracle: oracleFor(snap, in.Cfg.Prefix)}, nil
+	reg.mu.Lock()
+	faults, jumps := reg.faultsSeen, reg.hJumps+reg.kvJumps
+	reg.mu.Unlock()
+	return pipeOut{Table: table, Registry: snap, Oracle: oracleFor(snap, in.Cfg.Prefix), Obs: obs, Faults: faults, Jumps: jumps}, nil
 }
 
 // ---- generators ----
@@ -324,13 +372,81 @@ func genKV(r *hx.Rand, have []Op) Op {
 	return o
 }
 
+// faultBlock: two healthy tagged instances of one service, the watchers catch up, then the catalog lookup of
+// that service fails while one of them turns unhealthy, and the state is observed again.
+func faultBlock(r *hx.Rand, prefix string) []Op {
+	name := r.Pick(uNames)
+	a := Op{Op: "reg", Node: "n1", ID: r.Pick([]string{"a", "y"}), Name: name, Port: 8000, Tags: []string{prefix + r.Pick([]string{"/a", "/b", "foo.com/"})},
+		Checks: []chk{{ID: "service:1", Status: "passing"}}}
+	b := Op{Op: "reg", Node: "n2", ID: r.Pick([]string{"a", "x.y"}), Name: name, Port: 8001, Tags: a.Tags,
+		Checks: []chk{{ID: "service:1", Status: "passing"}}}
+	ops := []Op{a, b, {Op: "sync"}, {Op: "catfail", Name: name, N: 1 + r.Intn(2)}}
+	switch r.Intn(4) {
+	case 0:
+		ops = append(ops, Op{Op: "status", Node: b.Node, ID: b.ID, Check: "service:1", Status: "critical"})
+	case 1:
+		ops = append(ops, Op{Op: "serf", Node: b.Node, Status: "critical"})
+	case 2:
+		ops = append(ops, Op{Op: "svcmaint", Node: b.Node, ID: b.ID, On: true})
+	default:
+		ops = append(ops, Op{Op: "nodemaint", Node: b.Node, On: true})
+	}
+	return append(ops, Op{Op: "sync"})
+}
+
+// kvJumpBlock: an operator override is applied, the KV index goes backwards, the override is edited again.
+func kvJumpBlock(r *hx.Rand) []Op {
+	mk := func(dst string) []rt.Def {
+		d := rt.Def{Cmd: "add", Service: "static", Src: r.Pick([]string{"/static", "/a"}), Dst: dst}
+		d.Fill()
+		return []rt.Def{d}
+	}
+	ops := []Op{{Op: "kv", Key: "a", Defs: mk("http://10.9.9.9:80/")}}
+	if r.Chance(2, 3) {
+		ops = append(ops, Op{Op: "sync"})
+	}
+	ops = append(ops, Op{Op: "kvjump"})
+	if r.Chance(1, 3) {
+		ops = append(ops, Op{Op: "sync"})
+	}
+	if r.Chance(1, 4) {
+		ops = append(ops, Op{Op: "kv", Key: "a"}) // the override is deleted
+	} else {
+		ops = append(ops, Op{Op: "kv", Key: "a", Defs: mk("http://10.9.9.8:81/")})
+	}
+	return ops
+}
+
 func genHistory(r *hx.Rand, i int) interface{} {
 	in := pipeIn{Cfg: genCfg(r)}
 	var regs []Op
 	n := 3 + r.Intn(10)
+	faulty := r.Chance(1, 3) // histories with scripted faults and index anomalies
+	blockAt := -1
+	if faulty {
+		blockAt = r.Intn(n)
+	}
 	for k := 0; k < n; k++ {
+		if k == blockAt {
+			var blk []Op
+			if r.Chance(1, 2) {
+				blk = faultBlock(r, in.Cfg.Prefix)
+			} else {
+				blk = kvJumpBlock(r)
+			}
+			for _, o := range blk {
+				if o.Op == "reg" {
+					regs = append(regs, o)
+				}
+			}
+			in.Ops = append(in.Ops, blk...)
+			continue
+		}
 		var o Op
 		x := r.Intn(20)
+		if faulty && r.Chance(1, 6) {
+			x = 20 + r.Intn(8)
+		}
 		pick := func() (Op, bool) {
 			if len(regs) == 0 {
 				return Op{}, false
@@ -338,6 +454,14 @@ func genHistory(r *hx.Rand, i int) interface{} {
 			return regs[r.Intn(len(regs))], true
 		}
 		switch {
+		case x >= 20 && x < 24:
+			o = Op{Op: "catfail", Name: r.Pick(uNames), N: 1 + r.Intn(3)}
+		case x == 24:
+			o = Op{Op: "healthfail"}
+		case x == 25 || x == 26:
+			o = Op{Op: "kvjump"}
+		case x == 27:
+			o = Op{Op: "hjump"}
 		case x < 8 || len(regs) == 0:
 			o = genReg(r, in.Cfg.Prefix)
 			regs = append(regs, o)
@@ -442,10 +566,47 @@ func genJoin(r *hx.Rand, i int) interface{} {
 	return in
 }
 
+// a health flip whose catalog lookup fails: the unhealthy instance must be gone from the table observed next
+var catalogFaultHistory = pipeIn{
+	Cfg: pipeCfg{Prefix: "urlprefix-", Status: []string{"passing"}},
+	Ops: []Op{
+		{Op: "reg", Node: "n1", ID: "web-1", Name: "web", Port: 8001, Tags: []string{"urlprefix-/web"}, Checks: []chk{{ID: "service:web-1", Status: "passing"}}},
+		{Op: "reg", Node: "n2", ID: "web-2", Name: "web", Port: 8002, Tags: []string{"urlprefix-/web"}, Checks: []chk{{ID: "service:web-2", Status: "passing"}}},
+		{Op: "sync"},
+		{Op: "catfail", Name: "web", N: 1},
+		{Op: "status", Node: "n2", ID: "web-2", Check: "service:web-2", Status: "critical"},
+		{Op: "sync"},
+	},
+}
+
+// the KV index goes backwards (snapshot restore) between two edits of an operator override
+var kvIndexBackHistory = pipeIn{
+	Cfg: pipeCfg{Prefix: "urlprefix-", Status: []string{"passing"}},
+	Ops: []Op{
+		{Op: "reg", Node: "n1", ID: "web-1", Name: "web", Port: 8001, Tags: []string{"urlprefix-/web"}, Checks: []chk{{ID: "service:web-1", Status: "passing"}}},
+		{Op: "kv", Key: "a", Defs: []rt.Def{{Cmd: "del", Service: "web"}}},
+		{Op: "sync"},
+		{Op: "kvjump"},
+		{Op: "kv", Key: "a", Defs: []rt.Def{{Cmd: "add", Service: "static", Src: "/static", Dst: "http://10.9.9.9:80/"}}},
+	},
+}
+
+// the health index goes backwards, a health query fails once, then an instance turns critical
+var healthAnomalyHistory = pipeIn{
+	Cfg: pipeCfg{Prefix: "urlprefix-", Status: []string{"passing"}, Strict: true},
+	Ops: []Op{
+		{Op: "reg", Node: "n1", ID: "web-1", Name: "web", Port: 8001, Tags: []string{"urlprefix-/web"}, Checks: []chk{{ID: "service:web-1", Status: "passing"}}},
+		{Op: "sync"},
+		{Op: "hjump"},
+		{Op: "healthfail"},
+		{Op: "status", Node: "n1", ID: "web-1", Check: "service:web-1", Status: "critical"},
+	},
+}
+
 func init() {
 	hx.Register(&hx.Stream{
 		Name:   "c01.pipeline",
-		Corpus: []interface{}{d01History},
+		Corpus: []interface{}{d01History, catalogFaultHistory, kvIndexBackHistory, healthAnomalyHistory},
 		Gen:    genHistory,
 		Run:    runPipeline,
 	})
